@@ -61,7 +61,6 @@ TRUSTED_EXTRA = [
     "the AST translators harness/gen.py (tables) are trusted; gen_eq_spec ties their output to the committed reference",
     "everything after validation (solve_main) is outside this model: the 'flag is documented / result prints' clause for "
     "non-error exits is checked by the failing-input search only (theorem C07_flag_documented covers the input-error path)",
-    "scaling_within_bounds with mis-shaped bounds (NumPy broadcasting) is `unmodelled`; generators avoid it",
 ]
 EXPLANATION = ("C07: validation logic of solve/ParameterList proved correct on a table-driven model (tables regenerated from the "
                "source AST each run and proved equal to the committed reference); model tied to the real solve by differential runs; "
@@ -530,7 +529,7 @@ def arg_cases(rng):
     add("plain", "arg:bounds:too-narrow-default-rhobeg", "invalid", scaling=lambda c: narrow(c, 0.15))
     add("plain", "arg:bounds:too-narrow-one-coordinate", "invalid",
         scaling=lambda c: (narrow(c, 4.0), c["xu"].__setitem__(0, c["xl"][0] + 0.1))[0] and False)
-    for cat, gap, ex in [("scaled-narrow", 0.05, "valid"), ("scaled-inverted", -1.0, "undefined"), ("scaled-equal", 0.0, "undefined")]:
+    for cat, gap, ex in [("scaled-narrow", 0.05, "valid"), ("scaled-inverted", -1.0, "invalid"), ("scaled-equal", 0.0, "invalid")]:
         add("plain", "arg:bounds:" + cat, ex, scaling=lambda c, gap=gap: (narrow(c, gap), True)[1])
     add("plain", "arg:bounds:scaled-rhobeg-too-large", "invalid", scaling=lambda c: (narrow(c, 4.0), True)[1], rhobeg=enc(0.6))
     for cat, which, ex in [("xl-wrong-length", "xl", "invalid"), ("xu-wrong-length", "xu", "invalid")]:
@@ -539,6 +538,9 @@ def arg_cases(rng):
             c[which] = c[which] + [c[which][-1]] * 2
             return False
         add("plain", "arg:bounds:" + cat, ex, scaling=wrong)
+        add("plain", "arg:bounds:scaled-" + cat, ex, scaling=lambda c, wrong=wrong: (wrong(c), True)[1])
+    add("plain", "arg:bounds:scaled-one-coordinate-zero-width", "invalid",
+        scaling=lambda c: (narrow(c, 4.0), c["xu"].__setitem__(0, c["xl"][0]), True)[2])
     add("plain", "arg:x0:2d-row", "invalid", x0_2d="row")
     add("plain", "arg:x0:2d-column", "undefined", x0_2d="col")      # len(x0) = n rows of width 1: default rhobeg etc. still defined
     add("proj", "arg:projections:narrow-bounds-ignored", "valid", scaling=lambda c: narrow(c, 120.0), rhobeg=enc(0.5))
